@@ -39,6 +39,7 @@ def run(ck, fb):
     r09j(ck, fb)
     r09k(ck, fb)
     r09l(ck, fb)
+    r09m(ck, fb)
 
 
 PAIR_EXCEPTIONS = {
@@ -147,7 +148,13 @@ def r09b(ck, fb):
         gm = st.calls(r'utils::get_md5$')
         vl = [l for l in range(1, st.argc + 1) if st.local_name(l) == 'val']
         t = Taint(st, local_src=vl)
-        ck.require(len(gm) >= 1 and all(t.op_tainted(_x.args[0]) for _x in gm), 'R09b', 'set_tmp_config:get_md5(val)', st.where(), 'temporary value md5 is not the hash of the temporary content')
+        nw = [x for x in st.calls(re.escape(CV) + r'(new|init)$') if x.args and t.op_tainted(x.args[0])]
+        # the md5 comes from get_md5(val), or from a value built by ConfigValue::new(val) (whose own md5 R09b judges above)
+        src = Taint(st, call_src=lambda term: re.search(r'utils::get_md5$|' + re.escape(CV) + r'(new|init)$', cfg.callee_name(term) or '') is not None)
+        mw = [(bb, s_) for (o, f, bb, s_) in st.field_writes() if f == 'md5' and o.endswith('ConfigValue')]
+        okw = all(any(src.op_tainted(o2) for o2 in rv_operands(s_['rv'])) for (bb, s_) in mw)
+        ck.require((len(gm) >= 1 or len(nw) >= 1) and all(t.op_tainted(_x.args[0]) for _x in gm) and okw, 'R09b', 'set_tmp_config:get_md5(val)', st.where(),
+                   'temporary value md5 is not the hash of the temporary content')
 
 
 def r09c(ck, fb):
@@ -585,3 +592,27 @@ def r09l(ck, fb, R='R09l'):
                     worst = int(a[3]['c']['v']) + (1 if a[1] == 'Gt' else 0)
         ck.require(worst is None or worst <= 101, R, 'full-value:bound<=100', s0.where(),
                    'the imported history is only cut when it holds %s items or more: the bound of the property is 100' % worst)
+
+
+def r09m(ck, fb, R='R09m'):
+    ck.rule(R, 'the change history belongs to the key, not to the value that is served at the moment: ConfigActor::set_tmp_config (the follower\'s temporary '
+               'value for a routed publish) never replaces an EXISTING entry - from the Some edge of its lookup no cache.insert / cache.remove is reachable - '
+               'and does not write `histories`. Building a fresh ConfigValue for the temporary content and inserting it over the entry restarts the history '
+               'of the key at one item on that node (and in every snapshot it builds)')
+    b = ck.body(CA + 'set_tmp_config', R)
+    if not b:
+        return
+    look = util.mut_calls_on_field(b, 'cache', r'HashMap::<K, V, S, A>::(get_mut|get|entry|contains_key)$')
+    some = util.option_edges(b, look, 'Some')
+    ck.floor(R, 'lookup of the existing entry in set_tmp_config', len(some), 1)
+    repl = util.mut_calls_on_field(b, 'cache', r'HashMap::<K, V, S, A>::(insert|remove)$')
+    bad = []
+    for (s0, d0, lab0) in some:
+        r = cfg.reach_from(b, [d0])
+        bad += [x for x in repl if x.bb in r]
+    ck.require(not bad, R, 'set_tmp_config:existing-entry-not-replaced', bad[0].where() if bad else b.where(),
+               'for a key that exists set_tmp_config reaches cache.%s: the stored entry, with the history of the key, is replaced by a value built from the temporary content'
+               % (bad[0].callee.split('::')[-1] if bad else ''), 'existing entry is modified in place')
+    hw = [x for x in util.region(fb, b, 1) for (o, f, bb, st) in x.field_writes() if f == 'histories' and x.name.startswith(CA)]
+    hm = util.mut_calls_on_field(b, 'histories', r'Vec::<T, A>::(clear|truncate|drain|remove|pop|push|retain)$')
+    ck.require(not hw and not hm, R, 'set_tmp_config:history-untouched', b.where(), 'set_tmp_config changes the history of the key', 'no write to histories')
